@@ -161,6 +161,31 @@ func checkC08(c *Ctx) {
 				}
 				t.MS = append(t.MS, e)
 			}
+			// a plain entry (or plain table row) may name the label of an inline script of the
+			// same statement
+			var inlineNames []string
+			for _, e := range t.MS {
+				if e.Kind == "inline" {
+					inlineNames = append(inlineNames, t.Name+"_"+e.Type)
+				}
+				for j, row := range e.Table {
+					if row.Kind == "inline" {
+						inlineNames = append(inlineNames, fmt.Sprintf("%s_%s_%d", t.Name, e.Type, j))
+					}
+				}
+			}
+			if len(inlineNames) > 0 {
+				for k := range t.MS {
+					if t.MS[k].Kind == "plain" && r.Chance(1, 3) {
+						t.MS[k].Target = r.Pick(inlineNames)
+					}
+					for j := range t.MS[k].Table {
+						if t.MS[k].Table[j].Kind == "plain" && r.Chance(1, 3) {
+							t.MS[k].Table[j].Target = r.Pick(inlineNames)
+						}
+					}
+				}
+			}
 			msTops = append(msTops, len(f.Tops))
 			f.Tops = append(f.Tops, t)
 			if r.Chance(1, 3) {
